@@ -41,7 +41,16 @@ def equiv(op, il, mres):
     # the locator found the blobs; the harness' fake blobs then fail PKCS#7 parsing, which is outside the model
     if f[1] == "locate" and il == "err pkcs7" and mres.startswith("ok"):
         return True
+    if f[1] == "mutate" and il.startswith("ok") and mres.startswith("ok"):
+        a, b = il.split(" ")[1:], mres.split(" ")[1:]
+        # "any": the mutation hit the PKCS#7 blob itself, whose verification is outside the model
+        return len(a) == len(b) and all(x == y or y == "any" for x, y in zip(a, b))
     return False
+
+
+def weight(op):
+    f = op.split(" ", 4)
+    return int(f[3]) if f[1] == "mutate" else 1
 
 
 def nontrivial(op, mres, tag):
@@ -84,6 +93,18 @@ def predicate(prop, op, il, mres, tag):
             if not ok:
                 return ("Relic.Props.C03.pe_payload_preserved", "input bytes outside [dd,dd+8) below origSize unchanged",
                         "payload bytes moved or changed by signing")
+    if f[1] == "mutate" and il.startswith("ok ") and mres.startswith("ok "):
+        kv = _kv(tag)
+        ck, dd, orig = int(kv["ck"]), int(kv["dd"]), int(kv["orig"])
+        outs = il.split(" ")[1:]
+        for m, o in zip(f[4:], outs):
+            pos = int(m.split(":")[0])
+            protected = pos < ck or ck + 4 <= pos < dd or dd + 8 <= pos < orig
+            if protected and o == "pass":
+                return ("Relic.Props.C02.pe_hashed_injective", "fail",
+                        "byte %d lies in the protected set (hashed ranges) yet the verifier accepted the mutated file" % pos)
+            if o.startswith("panic"):
+                return ("Relic.Props.C02 (pe verify)", "fail", "verifier panicked on mutated file: " + o)
     if prop == "C11" and il.startswith("panic"):
         return ("Relic.Props.C11 (pe no_panic)", mres, "parser panicked: " + il)
     return None
